@@ -13,7 +13,7 @@
 From Coq Require Import List ZArith NArith Bool String.
 Import ListNotations.
 Require Import RV.Lib.PyStr RV.Model.LoginCache.
-Require Import RV.Proofs.LoginCacheSweep RV.Proofs.LoginCacheSound RV.Proofs.LoginCacheIndep RV.Proofs.C17Final.
+Require Import RV.Proofs.LoginCacheDict RV.Proofs.LoginCacheSweep RV.Proofs.LoginCacheSound RV.Proofs.LoginCacheIndep RV.Proofs.C17Final.
 Require RV.Gen.LoginMapGen.
 Open Scope Z_scope.
 
@@ -142,6 +142,24 @@ Theorem C17_housekeeping :
                 /\ (fix1 v = true -> v_login lo' = v_login lo).
 Proof. exact sweep_spec. Qed.
 Print Assumptions C17_housekeeping.
+
+(* Key formats.  `_cache_digest` hashes salt ++ login ++ password, so a digest does not determine (login, password);
+   the key of the failed cache, login ++ ":" ++ digest, does -- because of its login prefix; under one login (the key
+   of the successful cache) the digest determines the password. *)
+Theorem C17_digest_alone_not_injective :
+  exists l p l' p' s, (l, p) <> (l', p') /\ cache_digest l p s = cache_digest l' p' s.
+Proof. exact cache_digest_not_injective. Qed.
+Print Assumptions C17_digest_alone_not_injective.
+
+Theorem C17_failed_key_injective : forall s s' l p l' p',
+  failed_key s l p = failed_key s' l' p' -> l = l' /\ p = p'.
+Proof. exact failed_key_inj. Qed.
+Print Assumptions C17_failed_key_injective.
+
+Theorem C17_digest_injective_under_one_login : forall l p p' s s',
+  cache_digest l p s = cache_digest l p' s' -> s = s' /\ p = p'.
+Proof. exact cache_digest_same_login. Qed.
+Print Assumptions C17_digest_injective_under_one_login.
 
 (* Tie T: the mapping prefix translated from the current source equals the model's map_login. *)
 Theorem C17_login_map_tie :
